@@ -107,7 +107,10 @@ func (fr *frame) call(v ssa.Value, c *ssa.CallCommon, st *State, site ssa.Instru
 		}
 	}
 	anchor := fr.callAnchor(anchorName(key, c), site)
+	fr.callArgs = args
+	fr.callArgTypes = argTypes
 	fr.checkAsserts("call "+anchor, st)
+	fr.callArgs = nil
 	if rc := fr.root().contract; rc != nil {
 		for _, fb := range rc.Forbid {
 			if fb == anchorName(key, c) {
